@@ -4,10 +4,11 @@ from fractions import Fraction as F
 from ..common import run_driver, seed_rng
 from ..qnum import installed
 from ..sllib import TIME_LATTICE, Fixture, random_space_intervals, result_str
-from ..slchecks import RealOps, describe, dummy_children, ok_aspect, random_real_mesh, seam_and_corner_pairs
+from ..slchecks import (RealOps, corr_panels, describe, dummy_children, ok_aspect, random_real_mesh, seam_and_corner_pairs,
+                        with_generated)
 from .C04 import translate  # noqa: F401
 
-PROP_MODS = ['Stbem.Props.C11']
+PROP_MODS = ['Stbem.Props.C11', 'Stbem.Props.PanelsTie']
 RULE = ('correspondence (exact): parent entry and the entries of its time halves / space halves / quarters computed '
         'by the real bilform on Q numbers must each equal the model value; with the closed-form path the pieces must '
         'sum to the parent exactly (the Psi-combinations telescope), with the quadrature path the model predicts the '
@@ -16,6 +17,9 @@ RULE = ('correspondence (exact): parent entry and the entries of its time halves
 TRUSTED = [
     'Lean 4.33 kernel; axioms propext, Classical.choice, Quot.sound only',
     'translate/formulas.py + exact correspondence as in C01',
+    'control flow of __integrate / bilform / evaluate / MP_SL_matrix_col regenerated from the source on every run '
+    '(translate/panels.py -> lean/Stbem/Gen/Panels.lean) and proved equal to the hand-written model for all inputs '
+    '(Props/PanelsTie.lean); the translator is validated on every run by exact execution of the real methods',
     'additivity for the true kernel on the quadrature path holds only up to quadrature error: search only (partial)',
 ]
 ASSUMPTIONS = ['exact arithmetic in the theorems']
@@ -69,6 +73,7 @@ def correspond(res, tier):
                     lines.append('sl bil %d %s %s' % (pw, tr.encode(), te.encode()))
                     expect.append(result_str(parent))
                     groups.append((start, len(lines), pw, ks, kt, result_str(sum(vals[1:], vals[0])), result_str(parent)))
+            with_generated(lines, expect)   # `sl genbil`: the bilform regenerated from the source (Gen/Panels.lean)
             out = run_driver(lines)
             for line, want, got in zip(lines, expect, out):
                 if want != got and not (want == 'ok'):
@@ -81,6 +86,7 @@ def correspond(res, tier):
                     res.broken_obligation('C11: closed-form path not exactly additive in exact arithmetic',
                                           'split %s/%s pieces sum to %s, parent %s' % (ks, kt, s[:100], parent[:100]))
     res.sample(dict(curve='unitsquare', split_kinds=['none', 'time', 'space', 'quarters']))
+    corr_panels(res, tier, 'C11p', curves=('unitsquare', 'lshape'))
 
 
 def search(res, tier, boost=False):
